@@ -9,15 +9,18 @@ open Guard
 
 namespace Props.C10
 
-/-- the checks of a class, looked up in the generated table -/
+/-- the checks of a class, looked up in the generated table.  The proofs below first replace `checks "<class>"` by the generated
+definition of that class (`decide +kernel`: a table lookup) and then let `simp; omega` derive the guarantee from WHATEVER shape the
+translated conditions have — an equivalent rewrite of a check in the source (`a < b` as `b > a`, as `not (a >= b)`, two `if`s merged with
+`or`) changes the generated term but not the theorem; a weakened or removed check makes `omega` fail. -/
 abbrev checks (cls : String) : List C := find Gen.Guards.table cls
 
 /-- `CVRP.__init__` returns only when `max_demand ≤ max_capacity` -/
 theorem cvrp_ctor_check (ρ : String → Int) (h : accepts (checks "cvrp.CVRP") ρ = true) :
     ρ "max_demand" ≤ ρ "max_capacity" := by
-  have e : checks "cvrp.CVRP" = [.lt (.attr "max_capacity") (.attr "max_demand")] := by decide +kernel
+  have e : checks "cvrp.CVRP" = Gen.Guards.c_cvrp_CVRP := by decide +kernel
   rw [e] at h
-  simp [accepts, C.eval, E.eval] at h
+  simp [Gen.Guards.c_cvrp_CVRP, Gen.Guards.c_tetris_Tetris, Gen.Guards.c_minesweeper_Generator, Gen.Guards.c_rubiks_cube_RubiksCube, Gen.Guards.c_rubiks_cube_Generator, Gen.Guards.c_rubiks_cube_ScramblingGenerator, Gen.Guards.c_robot_warehouse_Generator, Gen.Guards.c_lbf_RandomGenerator, accepts, C.eval, E.eval] at h
   omega
 
 /-- … hence for every configuration `CVRP(generator=UniformGenerator(n, max_capacity, max_demand))` accepts and every valid draw the
@@ -30,19 +33,17 @@ theorem cvrp_generate_cert_of_ctor (ρ : String → Int) (h : accepts (checks "c
 /-- `Tetris.__init__` returns only for boards of at least 4 x 4 -/
 theorem tetris_ctor_check (ρ : String → Int) (h : accepts (checks "tetris.Tetris") ρ = true) :
     4 ≤ ρ "num_rows" ∧ 4 ≤ ρ "num_cols" := by
-  have e : checks "tetris.Tetris" = [.lt (.attr "num_rows") (.const 4), .lt (.attr "num_cols") (.const 4)] := by decide +kernel
+  have e : checks "tetris.Tetris" = Gen.Guards.c_tetris_Tetris := by decide +kernel
   rw [e] at h
-  simp [accepts, C.eval, E.eval] at h
+  simp [Gen.Guards.c_cvrp_CVRP, Gen.Guards.c_tetris_Tetris, Gen.Guards.c_minesweeper_Generator, Gen.Guards.c_rubiks_cube_RubiksCube, Gen.Guards.c_rubiks_cube_Generator, Gen.Guards.c_rubiks_cube_ScramblingGenerator, Gen.Guards.c_robot_warehouse_Generator, Gen.Guards.c_lbf_RandomGenerator, accepts, C.eval, E.eval] at h
   omega
 
 /-- the Minesweeper generator's constructor returns only for boards of at least 2 x 2 with `0 ≤ num_mines < num_rows·num_cols` -/
 theorem minesweeper_ctor_check (ρ : String → Int) (h : accepts (checks "minesweeper.Generator") ρ = true) :
     2 ≤ ρ "num_rows" ∧ 2 ≤ ρ "num_cols" ∧ 0 ≤ ρ "num_mines" ∧ ρ "num_mines" < ρ "num_rows" * ρ "num_cols" := by
-  have e : checks "minesweeper.Generator" =
-      [.or (.le (.attr "num_rows") (.const 1)) (.le (.attr "num_cols") (.const 1)),
-       .or (.lt (.attr "num_mines") (.const 0)) (.le (.mul (.attr "num_rows") (.attr "num_cols")) (.attr "num_mines"))] := by decide +kernel
+  have e : checks "minesweeper.Generator" = Gen.Guards.c_minesweeper_Generator := by decide +kernel
   rw [e] at h
-  simp [accepts, C.eval, E.eval] at h
+  simp [Gen.Guards.c_cvrp_CVRP, Gen.Guards.c_tetris_Tetris, Gen.Guards.c_minesweeper_Generator, Gen.Guards.c_rubiks_cube_RubiksCube, Gen.Guards.c_rubiks_cube_Generator, Gen.Guards.c_rubiks_cube_ScramblingGenerator, Gen.Guards.c_robot_warehouse_Generator, Gen.Guards.c_lbf_RandomGenerator, accepts, C.eval, E.eval] at h
   omega
 
 /-- `RubiksCube.__init__` and its generators: positive time limit, cube size at least 2, non-negative number of scrambles -/
@@ -50,19 +51,19 @@ theorem rubik_ctor_check (ρ : String → Int)
     (h1 : accepts (checks "rubiks_cube.RubiksCube") ρ = true) (h2 : accepts (checks "rubiks_cube.Generator") ρ = true)
     (h3 : accepts (checks "rubiks_cube.ScramblingGenerator") ρ = true) :
     0 < ρ "time_limit" ∧ 2 ≤ ρ "cube_size" ∧ 0 ≤ ρ "num_scrambles_on_reset" := by
-  have e1 : checks "rubiks_cube.RubiksCube" = [.le (.attr "time_limit") (.const 0)] := by decide +kernel
-  have e2 : checks "rubiks_cube.Generator" = [.lt (.attr "cube_size") (.const 2)] := by decide +kernel
-  have e3 : checks "rubiks_cube.ScramblingGenerator" = [.lt (.attr "num_scrambles_on_reset") (.const 0)] := by decide +kernel
+  have e1 : checks "rubiks_cube.RubiksCube" = Gen.Guards.c_rubiks_cube_RubiksCube := by decide +kernel
+  have e2 : checks "rubiks_cube.Generator" = Gen.Guards.c_rubiks_cube_Generator := by decide +kernel
+  have e3 : checks "rubiks_cube.ScramblingGenerator" = Gen.Guards.c_rubiks_cube_ScramblingGenerator := by decide +kernel
   rw [e1] at h1; rw [e2] at h2; rw [e3] at h3
-  simp [accepts, C.eval, E.eval] at h1 h2 h3
+  simp [Gen.Guards.c_cvrp_CVRP, Gen.Guards.c_tetris_Tetris, Gen.Guards.c_minesweeper_Generator, Gen.Guards.c_rubiks_cube_RubiksCube, Gen.Guards.c_rubiks_cube_Generator, Gen.Guards.c_rubiks_cube_ScramblingGenerator, Gen.Guards.c_robot_warehouse_Generator, Gen.Guards.c_lbf_RandomGenerator, accepts, C.eval, E.eval] at h1 h2 h3
   omega
 
 /-- the RobotWarehouse generator accepts only an odd number of shelf columns -/
 theorem rware_ctor_check (ρ : String → Int) (h : accepts (checks "robot_warehouse.Generator") ρ = true) :
     ρ "shelf_columns" % 2 = 1 := by
-  have e : checks "robot_warehouse.Generator" = [.ne (.mod (.attr "shelf_columns") (.const 2)) (.const 1)] := by decide +kernel
+  have e : checks "robot_warehouse.Generator" = Gen.Guards.c_robot_warehouse_Generator := by decide +kernel
   rw [e] at h
-  simp [accepts, C.eval, E.eval] at h
+  simp [Gen.Guards.c_cvrp_CVRP, Gen.Guards.c_tetris_Tetris, Gen.Guards.c_minesweeper_Generator, Gen.Guards.c_rubiks_cube_RubiksCube, Gen.Guards.c_rubiks_cube_Generator, Gen.Guards.c_rubiks_cube_ScramblingGenerator, Gen.Guards.c_robot_warehouse_Generator, Gen.Guards.c_lbf_RandomGenerator, accepts, C.eval, E.eval] at h
   omega
 
 /-- the LevelBasedForaging generator: grid of at least 5, field of view within the grid, at least one agent and one food item,
@@ -70,14 +71,9 @@ maximum agent level at least 2, and more free inner cells than the agents take -
 theorem lbf_ctor_check (ρ : String → Int) (h : accepts (checks "lbf.RandomGenerator") ρ = true) :
     5 ≤ ρ "grid_size" ∧ 1 ≤ ρ "fov" ∧ ρ "fov" ≤ ρ "grid_size" ∧ 0 < ρ "num_agents" ∧ 0 < ρ "num_food" ∧ 2 ≤ ρ "max_agent_level" ∧
     ρ "min_cells_food" < (ρ "grid_size" - 2) ^ 2 - ρ "num_agents" := by
-  have e : checks "lbf.RandomGenerator" =
-      [.not (.le (.const 5) (.attr "grid_size")),
-       .not (.and (.le (.const 1) (.attr "fov")) (.le (.attr "fov") (.attr "grid_size"))),
-       .not (.lt (.const 0) (.attr "num_agents")), .not (.lt (.const 0) (.attr "num_food")),
-       .not (.le (.const 2) (.attr "max_agent_level")),
-       .not (.lt (.attr "min_cells_food") (.sub (.pow (.sub (.attr "grid_size") (.const 2)) 2) (.attr "num_agents")))] := by decide +kernel
+  have e : checks "lbf.RandomGenerator" = Gen.Guards.c_lbf_RandomGenerator := by decide +kernel
   rw [e] at h
-  simp [accepts, C.eval, E.eval] at h
+  simp [Gen.Guards.c_cvrp_CVRP, Gen.Guards.c_tetris_Tetris, Gen.Guards.c_minesweeper_Generator, Gen.Guards.c_rubiks_cube_RubiksCube, Gen.Guards.c_rubiks_cube_Generator, Gen.Guards.c_rubiks_cube_ScramblingGenerator, Gen.Guards.c_robot_warehouse_Generator, Gen.Guards.c_lbf_RandomGenerator, accepts, C.eval, E.eval] at h
   omega
 
 -- non-vacuity: the shipped default configurations are accepted
